@@ -59,6 +59,18 @@ def run(tier, seed):
         st = json.loads(json.dumps([p for p in conn.last_mode_plans if p["cfg"]["nla"] and not p["cfg"]["admin"] and not p["cfg"]["blank"] and not p["cfg"]["hash"] and p["srv"]["reply"]["sel"][0] == 2][0]))
         st["id"] = "selftest"
         plans.append(st)
+        # the mode table does not depend on the order of the builder calls, nor on the password being non-empty
+        k2 = 0
+        for p in conn.last_mode_plans:
+            if k2 >= 48:
+                break
+            q = json.loads(json.dumps(p))
+            q["id"] = "order%d" % k2
+            q["cfg"]["auto_first"] = True
+            if k2 % 2 == 0:
+                q["cfg"]["password"] = []
+                q["srv"]["account"]["password"] = []
+            plans.append(q); k2 += 1
         # a server that answers the TLS / NLA request by selecting plain RDP security (or a protocol that was not offered):
         # the client must stop there - continuing would put the Client Info PDU, password included, on the clear transport
         k = 0
